@@ -19,13 +19,13 @@ import z3
 from harness.c01 import Harness, build_toy, build_model_graph, TOY, N_IND, _fmt
 from harness.c03 import pop_task as _pop_task, ind_task as _ind_task
 from harness.realmodel import *  # noqa
-from leaspy.exceptions import LeaspyInputError
+from leaspy.exceptions import LeaspyException, LeaspyInputError
 from leaspy.utils.functional import NamedInputFunction
 from leaspy.utils.weighted_tensor import unsqueeze_right
 from leaspy.variables.dag import VariablesDAG
 from leaspy.variables.specs import DataVariable, LinkedVariable
 from leaspy.variables.state import State, StateForkType
-from vcheck.common import Recorder, guarded, tensor_literal
+from vcheck.common import Recorder, guarded, tensor_literal, model_value
 
 PROP = "C02"
 META = dict(
@@ -39,8 +39,8 @@ META = dict(
 )
 
 
-def protocol_task(graph, model=None):
-    task = f"protocol[{graph}]"
+def protocol_task(graph, model=None, pre_fixed=None, start_fixed=None):
+    task = f"protocol[{graph}]" + (f"[pre={pre_fixed},start={start_fixed}]" if pre_fixed is not None else "")
 
     def body():
         rec = Recorder(PROP, task, [State.__setitem__, State.put, State.revert, State.__getitem__, State._get_or_compute_and_cache])
@@ -49,6 +49,7 @@ def protocol_task(graph, model=None):
         else:
             dag, ind_nodes, _ = build_model_graph(*model)
         H = Harness(dag, ind_nodes, {"put"}, model is not None)
+        hold = {}
         if model is not None:
             prop_roots = [r for r in H.roots if r in ("xi", "tau", "sources", "log_v0", "betas", "log_g", "g")]
             readable = [n for n in ("model", "nll_attach_ind", "nll_attach", "nll_regul_ind_sum_ind", "nll_regul_ind_sum", "rt", "alpha", "space_shifts", "mixing_matrix") if n in dag]
@@ -58,26 +59,46 @@ def protocol_task(graph, model=None):
 
         def run():
             H.fresh = itertools.count()
+            hold.clear()
             # what is cached when the proposal is made: everything / nothing / only what the samplers read
-            start = ["cached", "set", "sampler-reads"][T.choose(3)]
+            start = ["cached", "set", "sampler-reads"][T.choose(3) if start_fixed is None else start_fixed]
             S = H.start_state("set" if start != "cached" else "cached")
             if start == "sampler-reads":
                 for n in [x for x in readable if x.startswith("nll_") or x in H.derived[-1:]]:
                     S[n]
             fork = [StateForkType.REF, StateForkType.COPY][T.choose(2)]
             S.auto_fork_type = fork
+            hold.update(start=start, fork=fork.name, pre=None, reads=[], partial=False)
+            # an earlier proposal that was ACCEPTED (its fork is simply left behind, as the samplers do)
+            pre = T.choose(3) if pre_fixed is None else pre_fixed
+            if pre:
+                r0 = prop_roots[0] if pre == 1 else prop_roots[-1]
+                v0_ = H.new_value(r0)
+                hold.update(pre=("put_acc" if pre == 1 else "set", r0), pre_value=v0_)
+                if pre == 1:
+                    S.put(r0, v0_, accumulate=True)
+                else:
+                    S[r0] = v0_
             r = prop_roots[T.choose(len(prop_roots))]
             kind = T.choose(3 if r in H.ind else 2)
             before_roots = {x: S._values[x] for x in H.all_roots}
             before = st.to_terms(S._values[r]).reshape(-1).copy()
+            hold.update(r=r, kind=["set", "put_acc", "put_idx"][kind])
             if kind == 0:
-                S[r] = H.new_value(r)
+                val_ = H.new_value(r)
+                hold.update(value=val_)
+                S[r] = val_
             elif kind == 1:
-                S.put(r, H.new_value(r), accumulate=True)
+                val_ = H.new_value(r)
+                hold.update(value=val_)
+                S.put(r, val_, accumulate=True)
             else:
-                S.put(r, st.sym("d", (), register=False), indices=(T.choose(N_IND),), accumulate=True)
+                val_ = st.sym("d", (), register=False)
+                hold.update(value=val_, index=T.choose(N_IND))
+                S.put(r, val_, indices=(hold["index"],), accumulate=True)
             proposed = st.to_terms(S._values[r]).reshape(-1).copy()
             partial = (r in H.ind) and T.choose(2) == 1
+            hold.update(partial=partial)
             reads = []
             allowed = [n for n in readable if not (partial and n not in H.ind)]  # contract: only individual-axis variables before a per-individual rejection
             if model is None:
@@ -88,10 +109,12 @@ def protocol_task(graph, model=None):
                 # model graphs: no read / every allowed read / exactly one of them
                 k = T.choose(len(allowed) + 2)
                 reads = [] if k == 0 else (list(allowed) if k == 1 else [allowed[k - 2]])
+            hold.update(reads=list(reads))
             for n in reads:
                 S[n]
             if partial:
                 mask = st.sym("reject", (N_IND,), torch.bool, register=False)
+                hold.update(mask=mask)
                 S.revert(mask)
                 mt = list(mask.sym)
             else:
@@ -105,39 +128,58 @@ def protocol_task(graph, model=None):
                 m = mt[i] if k == N_IND else mt[0]
                 exp = T.mk_ite(m, before[i], proposed[i])
                 if not got[i].eq(exp) and T.prove(got[i] == exp, timeout_ms=20000).status != "unsat":
-                    errs.append(f"{r}[{i}] after rejection is not before/proposed according to the mask")
+                    errs.append((f"{r}[{i}] after rejection is not before/proposed according to the mask", got[i] == exp))
             for x in H.all_roots:
                 if x != r and S._values[x] is not before_roots[x]:
-                    errs.append(f"independent variable {x} was touched by the rejection")
+                    errs.append((f"independent variable {x} was touched by the rejection", None))
             if S._last_fork is not None:
-                errs.append("fork not consumed by revert")
+                errs.append(("fork not consumed by revert", None))
             # every node read afterwards (two orders) is fresh
             order = list(dag) if T.choose(2) == 0 else list(reversed(list(dag)))
             for n in order:
                 if n in H.derived:
                     e = H.check_read(S, n, rec, [])
                     if e:
-                        errs.append(e)
-            return dict(errs=errs, r=r, kind=["set", "put_acc", "put_idx"][kind], fork=fork.name, partial=partial, reads=reads, start=start)
+                        errs.append((e, None))
+            return dict(errs=errs)
+
+        def describe(m):
+            """scenario of the current path with the solver's values for the proposed value(s) and the rejection mask"""
+            d = {k: v for k, v in hold.items() if k not in ("value", "pre_value", "mask")}
+            lit = lambda t: [model_value(m, x) for x in t.sym.reshape(-1)]
+            if "value" in hold:
+                d["value"] = lit(hold["value"])
+            if "pre_value" in hold:
+                d["pre_value"] = lit(hold["pre_value"])
+            if "mask" in hold:
+                d["mask"] = [bool(z3.is_true(m.eval(x, model_completion=True))) for x in hold["mask"].sym.reshape(-1)]
+            return d
 
         n_bad = 0
         for c, res in st.explore(run, "R"):
             rec.end_path(c)
-            if isinstance(res, Exception):
+            if isinstance(res, Exception) and not isinstance(res, LeaspyException):
                 raise res
-            rec.obligations += 1
-            if not res["errs"]:
+            if not isinstance(res, Exception) and not res["errs"]:
+                rec.obligations += 1
                 rec.discharged += 1
                 if rec.paths in (1, 50, 500):
-                    rec.sample({k: v for k, v in res.items() if k != "errs"})
+                    rec.sample({k: v for k, v in hold.items() if k not in ("value", "pre_value", "mask")})
                 continue
             n_bad += 1
-            if n_bad <= 2:
-                desc = {k: v for k, v in res.items() if k != "errs"}
-                if model is None:
-                    rec.violation_from_script(f"scenario#{rec.paths}", f"C02:protocol:{res['errs'][0][:50]}", _protocol_replay(TOY[graph], desc), what=f"{res['errs'][:2]} in scenario {desc}")
-                else:
-                    rec.unreproduced.append(f"{task}: {res['errs'][:2]} in scenario {desc}")
+            if n_bad > 3:
+                continue
+            if isinstance(res, Exception):
+                # the real State refused a step of the proposal / read / rejection protocol on a feasible path
+                msg, goal, key = f"{type(res).__name__} raised during the proposal/rejection protocol: {str(res)[:120]}", z3.BoolVal(False), "C02:protocol:exception"
+            else:
+                msg, goal = res["errs"][0]
+                goal, key = (z3.BoolVal(False) if goal is None else goal), f"C02:protocol:{msg[:50]}"
+            shown = {k: v for k, v in hold.items() if k not in ("value", "pre_value", "mask")}
+            if model is None:
+                rec.prove(f"scenario#{rec.paths}", goal, replay=lambda m: _protocol_replay(TOY[graph], describe(m)), key=key, what=f"{msg} in scenario {shown}")
+            else:
+                rec.unreproduced.append(f"{task}: {msg} in scenario {shown}")
         return rec.result()
 
     return guarded(PROP, task, body)
@@ -176,18 +218,31 @@ if D.get('start', 'cached') == 'cached':
 elif D.get('start') == 'sampler-reads':
     S[list(derived)[-1]]
 S.auto_fork_type = StateForkType[D['fork']]
-r = D['r']; before = S[r].clone()
-if D['kind'] == 'set': S[r] = val(r)
-elif D['kind'] == 'put_acc': S.put(r, val(r), accumulate=True)
-else: S.put(r, torch.tensor(0.37, dtype=torch.float64), indices=(0,), accumulate=True)
-proposed = S[r].clone()
-for n in D['reads']: S[n]
-mask = torch.tensor([True, False])
-if D['partial']: S.revert(mask)
-else: S.revert(); mask = torch.tensor([True, True])
-exp = torch.where(mask[: len(before)] if len(before) == N else mask[:1], before, proposed)
+def given(key, n): return torch.tensor(D[key], dtype=torch.float64).reshape(val(n).shape) if D.get(key) is not None else val(n)
 bad = []
-if not torch.equal(S[r], exp): bad.append(f'{{r}}: {{S[r]}} expected {{exp}}')
+try:
+    if D.get('pre'):
+        # an earlier, accepted proposal
+        k0, r0 = D['pre']
+        if k0 == 'set': S[r0] = given('pre_value', r0)
+        else: S.put(r0, given('pre_value', r0), accumulate=True)
+    r = D['r']; before = S[r].clone(); others = {{x: S[x].clone() for x in pops + inds if x != r}}
+    if D['kind'] == 'set': S[r] = given('value', r)
+    elif D['kind'] == 'put_acc': S.put(r, given('value', r), accumulate=True)
+    else: S.put(r, torch.tensor(D['value'][0] if D.get('value') else 0.37, dtype=torch.float64), indices=(D.get('index', 0),), accumulate=True)
+    proposed = S[r].clone()
+    for n in D['reads']: S[n]
+    mask = torch.tensor(D.get('mask') or [True, False])
+    if D['partial']: S.revert(mask)
+    else: S.revert(); mask = torch.tensor([True, True])
+    exp = torch.where(mask[: len(before)] if len(before) == N else mask[:1], before, proposed)
+    if not torch.equal(S[r], exp): bad.append(f'{{r}}: {{S[r]}} expected {{exp}}')
+    for x, v in others.items():
+        if not torch.equal(S[x], v): bad.append(f'independent variable {{x}} changed by the rejection: {{S[x]}} was {{v}}')
+except Exception as e:
+    import leaspy.exceptions
+    if not isinstance(e, leaspy.exceptions.LeaspyException): raise
+    bad.append(f'{{type(e).__name__}} during the proposal / rejection protocol: {{e}}'); print(D, bad); sys.exit(1)
 def scratch(n):
     var = dag[n]
     if isinstance(var, IndepVariable): return S._values[n]
@@ -295,10 +350,14 @@ def tasks(tier, seed=0):
     graphs = ["diamond_late_root", "two_roots_grandchild", "hyper_fed"] if tier == "quick" else list(TOY)
     for g in graphs:
         ts.append(("protocol_task", dict(graph=g)))
-    ts.append(("protocol_task", dict(graph="logistic[s=1]", model=("logistic", dict(features=["a", "b"], source_dimension=1)))))
+    # model graphs: split over (earlier accepted proposal, what is cached) so that the pieces run in parallel
+    mgs = [("logistic[s=1]", ("logistic", dict(features=["a", "b"], source_dimension=1)))]
     if tier == "thorough":
-        ts.append(("protocol_task", dict(graph="linear[s=0]", model=("linear", dict(features=["a", "b"], source_dimension=0)))))
-        ts.append(("protocol_task", dict(graph="joint", model=("joint", dict(features=["a"], source_dimension=0, nb_events=1)))))
+        mgs += [("linear[s=0]", ("linear", dict(features=["a", "b"], source_dimension=0))), ("joint", ("joint", dict(features=["a"], source_dimension=0, nb_events=1)))]
+    for g, mdl in mgs:
+        for pre in range(3):
+            for start in range(3):
+                ts.append(("protocol_task", dict(graph=g, model=mdl, pre_fixed=pre, start_fixed=start)))
     layouts = [((2,), (2,), False), ((2, 2), (2,), False), ((2, 2), (2,), True), ((2, 1), (2,), False)]
     if tier == "thorough":
         layouts += [((2, 2, 2), (2,), True), ((3, 2), (3,), False), ((2, 2), (2, 2), False)]
